@@ -47,13 +47,15 @@ def gen_args(lyr, ishape):
 
 def main():
   rep = vlib.Report(PROP, "proof")
-  from translate import opcountgen, energygen, memgen
+  from translate import opcountgen, energygen, memgen, extractgen
   gen = opcountgen.emit(vlib.GEN)
   egen = energygen.emit(vlib.GEN)
   mgen = memgen.emit(vlib.GEN)
-  info = vlib.build_obligations(PROP, gen_files=[gen, egen, mgen], extra_files=[os.path.join(vlib.COQ, "theories", "Link", "OpCountLink.v"),
-                                                                               os.path.join(vlib.COQ, "theories", "Link", "EnergyLink.v"),
-                                                                               os.path.join(vlib.COQ, "theories", "Link", "MemLink.v")])
+  xgen = extractgen.emit(vlib.GEN)
+  info = vlib.build_obligations(PROP, gen_files=[gen, egen, mgen, xgen], extra_files=[os.path.join(vlib.COQ, "theories", "Link", "OpCountLink.v"),
+                                                                                     os.path.join(vlib.COQ, "theories", "Link", "EnergyLink.v"),
+                                                                                     os.path.join(vlib.COQ, "theories", "Link", "MemLink.v"),
+                                                                                     os.path.join(vlib.COQ, "theories", "Link", "ExtractLink.v")])
   errs = rep.obligations(info, "python3 tools/translate/opcountgen.py coq/gen && python3 tools/translate/energygen.py coq/gen && python3 tools/translate/memgen.py coq/gen && coqc coq/gen/OpCountGen.v coq/gen/EnergyGen.v coq/gen/MemGen.v "
                          "&& coqc coq/theories/Link/OpCountLink.v coq/theories/Link/EnergyLink.v coq/theories/Link/MemLink.v && coqc coq/theories/Properties/C19.v")
   for e in errs:
